@@ -176,9 +176,9 @@ Qed.
 Ltac split_ifs := repeat match goal with |- context [if ?x then _ else _] => destruct x end; reflexivity.
 
 Lemma use_node_off q b :
-  q_rs_chain_start q = false -> q_ts_console_chain_start q = false ->
+  q_rs_chain_start q = false -> q_ts_arrow_node_start q = false -> q_ts_console_chain_start q = false ->
   q_fh_header_relative q = false -> use_node q b = false.
-Proof. intros H1 H3 H4. unfold use_node. rewrite H1, H3, H4. split_ifs. Qed.
+Proof. intros H1 H2 H3 H4. unfold use_node. rewrite H1, H2, H3, H4. split_ifs. Qed.
 
 Lemma use_node_ideal b : use_node loc_ideal b = false.
 Proof. now apply use_node_off. Qed.
@@ -218,11 +218,11 @@ Qed.
    file, whatever its builder: the model reports the construct's own line, the line exists, the column lies
    within that line. *)
 Theorem model_ideal_ok q f c :
-  q_rs_chain_start q = false -> q_ts_console_chain_start q = false ->
+  q_rs_chain_start q = false -> q_ts_arrow_node_start q = false -> q_ts_console_chain_start q = false ->
   q_fh_header_relative q = false -> q_col_const_unclamped q = false ->
   wf_construct f c = true -> loc_ok f c (model_line q c) (model_col q f c) = true.
 Proof.
-  intros H1 H3 H4 H5 Hwf.
+  intros H1 H2 H3 H4 H5 Hwf.
   assert (U : use_node q (k_builder c) = false) by now apply use_node_off.
   apply model_from_header; [unfold node_row; now rewrite U|unfold node_col; now rewrite U|exact Hwf|rewrite H5; discriminate].
 Qed.
@@ -241,11 +241,11 @@ Proof.
   - unfold node_col. now destruct (use_node q (k_builder c)).
 Qed.
 
-(* builders no flag refers to (nesting, magic numbers, SRP in every language - TypeScript since 147bf8d -, blocking-async,
+(* builders no flag refers to (nesting in Python and Rust, magic numbers, SRP in every language - TypeScript since 147bf8d -, blocking-async,
    Python print, stateless-class, file-placement with column 0): the property holds for the FAITHFUL model, whatever the
    quirk vector, for every well-formed construct whose builder reports the node column or the constant 0 *)
 Definition flag_free (b : string) : bool :=
-  negb (String.eqb b "unwrap" || String.eqb b "clone" || String.eqb b "print.ts" || String.eqb b "file-header.atemporal").
+  negb (String.eqb b "unwrap" || String.eqb b "clone" || String.eqb b "nesting.ts" || String.eqb b "print.ts" || String.eqb b "file-header.atemporal").
 Theorem model_flag_free_exact q f c :
   flag_free (k_builder c) = true -> wf_construct f c = true -> const_col_fits f c = true ->
   loc_ok f c (model_line q c) (model_col q f c) = true.
@@ -253,7 +253,7 @@ Proof.
   intros Hf Hwf Hfit.
   assert (U : use_node q (k_builder c) = false).
   { unfold flag_free in Hf. apply Bool.negb_true_iff in Hf. unfold use_node.
-    destruct (String.eqb (k_builder c) "unwrap"), (String.eqb (k_builder c) "clone"), (String.eqb (k_builder c) "print.ts"),
+    destruct (String.eqb (k_builder c) "unwrap"), (String.eqb (k_builder c) "clone"), (String.eqb (k_builder c) "nesting.ts"), (String.eqb (k_builder c) "print.ts"),
              (String.eqb (k_builder c) "file-header.atemporal"); cbn in Hf; try discriminate; reflexivity. }
   apply model_from_header; [unfold node_row; now rewrite U|unfold node_col; now rewrite U|exact Hwf|intros _; exact Hfit].
 Qed.
